@@ -118,7 +118,9 @@ class Flows:
             b"svc.example.com", b"svc.example.com, alt.example.net", b"sos@emergency.example",
             b"urn:service:sos", b"tel:+15551234", b"^sos.*@example.org$", b"b.b@svc.example.com", b"gw.+local",
             # a user@host name that is NOT a regular expression ('+' with nothing to repeat): only the literal comparison can match it
-            b"+1555@svc.example.com", b"other.example, +help@desk.example"])
+            b"+1555@svc.example.com", b"other.example, +help@desk.example",
+            # a plain word without any meta character is STILL a pattern: it matches wherever it occurs in user@host
+            b"pbx", b"desk, pbx"])
         # keepNextHopRoute as an operator may write it, and the environment default it overrides unless it is empty
         keep = o.get("keep", r.random() < 0.5)
         keep_env = None
@@ -208,6 +210,9 @@ class Flows:
         if n.startswith(b"gw"):
             return b"sip:x@gw" + tok(r, 1, 3) + b"local"
         first = r.choice(n.split(b",")).strip()
+        if first in (b"pbx", b"desk"):
+            return r.choice([b"sip:" + first, b"sip:alice@" + first + b".example.com", b"sip:x@my" + first + b"host:5070",
+                             b"sip:" + first + b"-7@h.example", b"urn:service:" + first])
         if first[:1] in (b"+", b"?"):
             return b"sip:" + first + r.choice([b"", b":5070", b";x=1"])
         if b"@" in first:
@@ -220,7 +225,9 @@ class Flows:
         vias = []
         top = b"SIP/2.0/" + proto + b" " + r.choice([ua[0] + b":%d" % ua[1], ua[0] + b":%d" % ua[1], ua[0]])
         top += b";branch=z9hG4bK-g%d" % self.nid()
-        top += r.choice([b"", b";rport", b";rport;x=1", b";received=10.9.9.9", b";rport=1;received=10.9.9.9", b";y", b";rport=5080"])
+        # (parameter names in other letter cases are other parameters to the proxy's exact-match look-ups and updates)
+        top += r.choice([b"", b";rport", b";rport;x=1", b";received=10.9.9.9", b";rport=1;received=10.9.9.9", b";y", b";rport=5080",
+                         b";Received=10.9.9.9", b";RPORT;received=10.9.9.9", b";Rport=7;RECEIVED=10.8.8.8;rport"])
         vias.append(top)
         for i in range(n - 1):
             # hosts further down the stack: names, and sometimes the address of a next hop (a host the proxy learns
@@ -496,7 +503,9 @@ class Flows:
         for i in range(n - 1):
             tr = r.choice([b"UDP", b"UDP", b"udp", b"TCP", b"TLS", b"SCTP"])
             h = r.choice([self.uas[0][0], self.uas[1][0], b"ua1.local", self.hops[0][0]])
-            v = b"SIP/2.0/" + tr + b" " + h + r.choice([b"", b":5060", b":5080"]) + b";branch=z9hG4bK-r%d" % self.nid()
+            # a Via entry without a branch is legal (RFC 2543 style): no transaction id can be formed from it
+            v = b"SIP/2.0/" + tr + b" " + h + r.choice([b"", b":5060", b":5080"]) + \
+                (b";branch=z9hG4bK-r%d" % self.nid() if r.random() < 0.8 else r.choice([b"", b";ttl=1"]))
             v += r.choice([b"", b";rport", b";rport=5080", b";rport=5060", b";received=" + self.uas[2][0], b";received=" + self.uas[2][0] + b";rport=5060",
                            b";rport=abc;received=" + self.uas[1][0], b";x=1;y"])
             vias.append(v)
